@@ -270,76 +270,54 @@ def check_formats(F, rep):
 def _is_name(n, s): return isinstance(n, ast.Name) and n.id == s
 
 def extend_args_shape(api, rep):
+    """R18.3 by abstract interpretation of _extend_args (and any helper it calls) on the four value classes: the verdict is
+    about what the function computes, not how it is written (loop + append, helper returning tokens, extend, ...)."""
+    import pyabs
     rule = "R18.3"
     fn = api.funcs.get("_extend_args")
     if not rep.anchor(rule, "python _extend_args", fn): return
-    loops = [s for s in fn.body if isinstance(s, ast.For)]
-    if len(loops) != 1:
-        rep.undecided(rule, "unrecognised-shape:_extend_args", "expected one for-loop over the flag table", PYFILE); return
-    lp = loops[0]
-    tgt = lp.target
-    if not (isinstance(tgt, ast.Tuple) and len(tgt.elts) == 2 and all(isinstance(e, ast.Name) for e in tgt.elts)):
-        rep.undecided(rule, "unrecognised-shape:_extend_args", "loop target is not (flag, value)", PYFILE); return
-    flag, value = tgt.elts[0].id, tgt.elts[1].id
-    argsname = fn.args.args[0].arg
-    # 1. first statement: skip None / False
-    st = lp.body
-    def is_skip(s):
-        if not (isinstance(s, ast.If) and len(s.body) == 1 and isinstance(s.body[0], ast.Continue) and not s.orelse): return False
-        tests = s.test.values if isinstance(s.test, ast.BoolOp) and isinstance(s.test.op, ast.Or) else [s.test]
-        seen = set()
-        for t in tests:
-            if isinstance(t, ast.Compare) and _is_name(t.left, value) and len(t.ops) == 1 and isinstance(t.ops[0], ast.Is) and isinstance(t.comparators[0], ast.Constant):
-                seen.add(t.comparators[0].value)
-        return None in seen and False in seen and len(tests) == 2
-    if st and is_skip(st[0]): rep.ok(rule, "None/False are skipped before anything is appended", nontrivial_key="skip")
-    else: rep.bad(rule, "skip-guard", "_extend_args does not start its loop body with `if value is None or value is False: continue`", PYFILE)
-    # 2. flag appended unconditionally
-    def is_append(s, what):
-        return (isinstance(s, ast.Expr) and isinstance(s.value, ast.Call) and isinstance(s.value.func, ast.Attribute)
-                and s.value.func.attr == "append" and _is_name(s.value.func.value, argsname) and len(s.value.args) == 1 and what(s.value.args[0]))
-    n_flag = sum(1 for s in st if is_append(s, lambda a: _is_name(a, flag)))
-    if n_flag == 1: rep.ok(rule, "flag appended once per kept entry", nontrivial_key="flag")
-    else: rep.bad(rule, "flag-append", "the flag is appended %d times unconditionally in the loop body" % n_flag, PYFILE)
-    # 3. value appended unless bool
-    def is_str_value(a):
-        return isinstance(a, ast.Call) and _is_name(a.func, "str") and len(a.args) == 1 and _is_name(a.args[0], value)
-    ok3 = False
-    for s in st:
-        if isinstance(s, ast.If) and not s.orelse and len(s.body) == 1 and is_append(s.body[0], is_str_value):
-            t = s.test
-            if isinstance(t, ast.UnaryOp) and isinstance(t.op, ast.Not) and isinstance(t.operand, ast.Call) and _is_name(t.operand.func, "isinstance") \
-               and _is_name(t.operand.args[0], value) and _is_name(t.operand.args[1], "bool"):
-                ok3 = True
-    if ok3: rep.ok(rule, "str(value) appended exactly when value is not a bool", nontrivial_key="value")
-    else: rep.bad(rule, "value-append", "_extend_args does not append str(value) under `not isinstance(value, bool)`", PYFILE)
-    # order: skip < flag < value
-    idx = {}
-    for i, s in enumerate(st):
-        if is_skip(s): idx.setdefault("skip", i)
-        if is_append(s, lambda a: _is_name(a, flag)): idx.setdefault("flag", i)
-        if isinstance(s, ast.If) and s.body and is_append(s.body[0], is_str_value): idx.setdefault("value", i)
-    if idx.get("skip", 9) < idx.get("flag", -1) < idx.get("value", -2) + 0 or (idx.get("skip") == 0 and idx.get("flag", 0) < idx.get("value", -1)):
-        rep.ok(rule, "order skip < flag < value")
-    else:
-        rep.bad(rule, "order", "statement order in _extend_args is not skip, flag, value: %s" % idx, PYFILE)
-    rets = [s for s in ast.walk(fn) if isinstance(s, ast.Return)]
-    if len(rets) == 1 and _is_name(rets[0].value, argsname): rep.ok(rule, "returns the argument list")
-    else: rep.bad(rule, "return", "_extend_args does not return its list", PYFILE)
+    FLAG = ("const", "FLAG"); V = pyabs.other("v")
+    cases = [("None", pyabs.NONE, [], "skip-guard", "None must add nothing"),
+             ("False", pyabs.B(False), [], "skip-guard", "False must add nothing"),
+             ("True", pyabs.B(True), [FLAG], "flag-append", "True must add the flag alone"),
+             ("0", ("const", 0), [FLAG, ("str", ("const", 0))], "skip-guard", "the integer 0 is a value (distance=0), not an absent keyword: it must add the flag followed by str(value)"),
+             ("7", ("const", 7), [FLAG, ("str", ("const", 7))], "value-append", "an integer must add the flag followed by str(value)"),
+             ("''", ("const", ""), [FLAG, ("str", ("const", ""))], "skip-guard", "the empty string is a value, not an absent keyword: it must add the flag followed by str(value)"),
+             ("'x'", ("const", "x"), [FLAG, ("str", ("const", "x"))], "value-append", "a string must add the flag followed by str(value)")]
+    for label, val, want, key, why in cases:
+        try:
+            toks, same = pyabs.extend_args_tokens(api.funcs, val)
+        except pyabs.Unsupported as e:
+            rep.undecided(rule, "unrecognised-shape:_extend_args:" + label, "_extend_args uses a construct outside the evaluated subset (%s)" % e, PYFILE); continue
+        except RecursionError:
+            rep.undecided(rule, "unrecognised-shape:_extend_args:" + label, "_extend_args recursion", PYFILE); continue
+        if toks is None:
+            rep.bad(rule, "return", "_extend_args does not return its list (for %s)" % label, PYFILE); continue
+        got = toks[1:] if toks[:1] == [("const", "SUB")] else None
+        if got == want and same: rep.ok(rule, "_extend_args([sub], [(flag, %s)]) == [sub] + %s" % (label, want), nontrivial_key="ea" + label)
+        elif got == want: rep.bad(rule, "return", "_extend_args returns a different list than the one it was given (for %s)" % label, PYFILE)
+        else: rep.bad(rule, key, "_extend_args: %s; for value %s it produces %s after the sub-command (expected %s)" % (why, label, got if got is not None else toks, want), PYFILE)
 
 def run_cmd_shape(api, rep):
+    """R18.4: subprocess.run([binary, *args], input=stdin, capture_output=True, text=True); on every path a return happens only
+    when returncode == 0 and returns result.stdout.strip(); every returncode != 0 path raises.  Paths are enumerated on the AST."""
+    import pyabs
     rule = "R18.4"
     fn = api.funcs.get("_run_zerv_command")
     if not rep.anchor(rule, "python _run_zerv_command", fn): return
-    rets = [s for s in ast.walk(fn) if isinstance(s, ast.Return)]
-    raises = [s for s in ast.walk(fn) if isinstance(s, ast.Raise)]
     runs = [c for c in ast.walk(fn) if isinstance(c, ast.Call) and isinstance(c.func, ast.Attribute) and c.func.attr == "run" and _is_name(c.func.value, "subprocess")]
     if len(runs) != 1:
         rep.undecided(rule, "unrecognised-shape:run", "expected exactly one subprocess.run call", PYFILE); return
     run = runs[0]
+    assigns = {}
+    for s_ in ast.walk(fn):
+        if isinstance(s_, ast.Assign) and len(s_.targets) == 1 and isinstance(s_.targets[0], ast.Name): assigns.setdefault(s_.targets[0].id, []).append(s_.value)
+    def resolve(n, depth=0):
+        while isinstance(n, ast.Name) and n.id in assigns and len(assigns[n.id]) == 1 and depth < 5: n = assigns[n.id][0]; depth += 1
+        return n
     resname = None
-    for s in fn.body:
-        if isinstance(s, ast.Assign) and s.value is run and isinstance(s.targets[0], ast.Name): resname = s.targets[0].id
+    for nme, vals in assigns.items():
+        if any(v is run for v in vals): resname = nme
     co = call_kw(run, "capture_output")
     if isinstance(co, ast.Constant) and co.value is True: rep.ok(rule, "capture_output=True")
     else: rep.bad(rule, "capture-output", "subprocess.run is not called with capture_output=True (stdout would not be captured)", PYFILE)
@@ -347,29 +325,55 @@ def run_cmd_shape(api, rep):
     if isinstance(tx, ast.Constant) and tx.value is True: rep.ok(rule, "text=True")
     else: rep.bad(rule, "text-mode", "subprocess.run is not called with text=True", PYFILE)
     inp = call_kw(run, "input")
-    if _is_name(inp, "stdin"): rep.ok(rule, "input=stdin")
+    stdin_param = fn.args.args[1].arg if len(fn.args.args) > 1 else "stdin"
+    if _is_name(inp, stdin_param): rep.ok(rule, "input=stdin")
     else: rep.bad(rule, "stdin-input", "stdin is not passed as the process input", PYFILE)
-    a0 = run.args[0] if run.args else None
-    good_argv = isinstance(a0, ast.List) and len(a0.elts) == 2 and isinstance(a0.elts[1], ast.Starred) and _is_name(a0.elts[1].value, fn.args.args[0].arg)
-    if good_argv: rep.ok(rule, "argv = [binary, *args]", nontrivial_key="argv")
-    else: rep.bad(rule, "argv", "the command line is not [binary, *args]", PYFILE)
-    # one return: result.stdout.strip()
+    a0 = resolve(run.args[0]) if run.args else None
+    def is_bin(x):
+        x = resolve(x)
+        return isinstance(x, ast.Call) and _is_name(x.func, "find_zerv_bin") and not x.args
+    good_argv = isinstance(a0, ast.List) and len(a0.elts) == 2 and is_bin(a0.elts[0]) and isinstance(a0.elts[1], ast.Starred) and _is_name(a0.elts[1].value, fn.args.args[0].arg)
+    if good_argv: rep.ok(rule, "argv = [find_zerv_bin(), *args]", nontrivial_key="argv")
+    else: rep.bad(rule, "argv", "the command line is not [find_zerv_bin(), *args]", PYFILE)
     def is_stdout_strip(v):
+        v = resolve(v)
         return (isinstance(v, ast.Call) and isinstance(v.func, ast.Attribute) and v.func.attr == "strip" and not v.args
                 and isinstance(v.func.value, ast.Attribute) and v.func.value.attr == "stdout" and _is_name(v.func.value.value, resname))
-    if len(rets) == 1 and is_stdout_strip(rets[0].value): rep.ok(rule, "single return of result.stdout.strip()", nontrivial_key="ret")
-    else: rep.bad(rule, "return-value", "_run_zerv_command does not return exactly result.stdout.strip()", PYFILE)
-    # raise guarded by returncode != 0, before the return
-    ok = False
-    for i, s in enumerate(fn.body):
-        if isinstance(s, ast.If) and any(isinstance(x, ast.Raise) for x in s.body) and not s.orelse:
-            t = s.test
-            if isinstance(t, ast.Compare) and isinstance(t.left, ast.Attribute) and t.left.attr == "returncode" and _is_name(t.left.value, resname) \
-               and len(t.ops) == 1 and isinstance(t.ops[0], ast.NotEq) and isinstance(t.comparators[0], ast.Constant) and t.comparators[0].value == 0:
-                later_ret = any(isinstance(x, ast.Return) for x in fn.body[i + 1:])
-                ok = later_ret
-    if ok and len(raises) >= 1: rep.ok(rule, "raise under returncode != 0 precedes the return", nontrivial_key="raise")
-    else: rep.bad(rule, "raise-guard", "a failing command does not raise before the return (guard `returncode != 0` missing or misplaced)", PYFILE)
+    def rc_zero(test, truth):
+        """True / False when the condition fixes returncode == 0 / != 0, None when it says nothing about it, 'unknown' otherwise"""
+        t = test
+        if isinstance(t, ast.UnaryOp) and isinstance(t.op, ast.Not): r = rc_zero(t.operand, not truth); return r
+        def is_rc(x): return isinstance(x, ast.Attribute) and x.attr == "returncode" and _is_name(x.value, resname)
+        if isinstance(t, ast.Compare) and len(t.ops) == 1 and is_rc(t.left) and isinstance(t.comparators[0], ast.Constant) and t.comparators[0].value == 0:
+            if isinstance(t.ops[0], ast.NotEq): return not truth
+            if isinstance(t.ops[0], ast.Eq): return truth
+            return "unknown"
+        if is_rc(t): return not truth            # `if result.returncode:` is true for non-zero
+        if any(is_rc(x) for x in ast.walk(t)): return "unknown"
+        return None
+    try:
+        ps = pyabs.paths(fn.body)
+    except pyabs.Unsupported as e:
+        rep.undecided(rule, "unrecognised-shape:_run_zerv_command", "control flow outside the evaluated subset (%s)" % e, PYFILE); return
+    probs = []; undecided = []; n_ret = 0
+    for conds, (kind, node) in ps:
+        zs = [rc_zero(t, tr) for t, tr in conds]
+        if "unknown" in zs: undecided.append("a test on returncode this rule does not evaluate"); continue
+        zs = [z for z in zs if z is not None]
+        if True in zs and False in zs: continue                    # infeasible
+        zero = zs[0] if zs else None
+        if kind == "return":
+            n_ret += 1
+            if zero is not True: probs.append(("raise-guard", "a path returns without having established returncode == 0 (a failing command does not raise)"))
+            elif not is_stdout_strip(node.value): probs.append(("return-value", "a path returns something other than result.stdout.strip()"))
+        elif kind == "fall":
+            probs.append(("return-value" if zero is True else "raise-guard", "a path falls off the end of _run_zerv_command (returns None)"))
+        elif kind == "raise" and zero is True:
+            probs.append(("raise-on-success", "a path raises although returncode == 0"))
+    if undecided and not probs: rep.undecided(rule, "unrecognised-shape:_run_zerv_command", undecided[0], PYFILE)
+    for k, msg in sorted(set(probs)): rep.bad(rule, k, msg, PYFILE)
+    if not probs and not undecided and n_ret:
+        rep.ok(rule, "every return is result.stdout.strip() under returncode == 0; every returncode != 0 path raises (%d paths)" % len(ps), nontrivial_key="paths")
 
 EXPL = ("Static table agreement between python/zerv/__init__.py (parsed with ast, never imported) and the clap option tables read from the MIR of the derive-generated "
         "augment_args / augment_subcommands. For each of the 42+28+2+4 keywords: the emitted flag names an option of that sub-command (or a global one), the option is the one carrying the keyword's name, "
